@@ -1,6 +1,6 @@
 (* C13 — every superseded primary location is freed exactly once (as an invariant of every reachable state). *)
 From Coq Require Import List NArith.
-From STH Require Import Conc ConcGC.
+From STH Require Import Conc ConcGC HandOver.
 From STH Require Import Log Lex Index Store Refine GInv Full2 Codec Crash2 Statements Statements2 Budget Budget2 Statements6.
 Import ListNotations.
 Open Scope N_scope.
@@ -64,3 +64,28 @@ Print Assumptions C13_concurrent_schedules_free_every_location_exactly_once.
 Theorem C13_the_empty_store_satisfies_the_quiescent_invariant : QInv aempty (fun _ => None).
 Proof. exact qinv_empty. Qed.
 Print Assumptions C13_the_empty_store_satisfies_the_quiescent_invariant.
+
+(* ---- "... across flushes, restarts and the hand-over of the freelist file to GC" (HandOver.v): the freelist file, the work file
+   (i.free.gc), the set of marked records; one cycle = an unfinished work file is processed first, otherwise rename / reopen, then one
+   mark per entry (idempotent), then remove the work file; a crash leaves the state after ANY prefix of these steps and a restart
+   recreates a missing freelist file; store flushes append in between.  [hinv]: every entry a store flush ever wrote is in the freelist
+   file, in the work file, or marked.  Nothing is lost by a crash at any step, and after any sequence of crashed cycles, restarts and
+   flushes a cycle that completes has every flushed entry marked or still waiting in the freelist file. ---- *)
+Theorem C13_crash_inside_a_cycle_loses_no_freelist_entry :
+  forall s k, hinv s -> hinv (hrun s (firstn k (cycle_ops s))).
+Proof. exact crash_in_cycle_loses_nothing. Qed.
+Print Assumptions C13_crash_inside_a_cycle_loses_no_freelist_entry.
+Theorem C13_handover_loses_nothing_across_crashes_and_restarts :
+  forall evs s, hinv s ->
+    let s1 := fold_left hevent evs s in
+    let s2 := hrun s1 (cycle_ops s1) in
+    hinv s2 /\ forall e, In e (flushed s2) -> In e (marked s2) \/ In e (content_of (ffile s2)) \/ (gfile s1 = None /\ ffile s1 = None).
+Proof. exact handover_loses_nothing. Qed.
+Print Assumptions C13_handover_loses_nothing_across_crashes_and_restarts.
+Theorem C13_a_completed_cycle_marks_its_whole_batch :
+  forall s, hinv s ->
+    let batch := match gfile s with Some g => g | None => content_of (ffile s) end in
+    let s' := hrun s (cycle_ops s) in
+    hinv s' /\ (gfile s <> None \/ ffile s <> None -> gfile s' = None) /\ (forall e, In e batch -> In e (marked s')).
+Proof. exact complete_cycle. Qed.
+Print Assumptions C13_a_completed_cycle_marks_its_whole_batch.
